@@ -53,6 +53,24 @@ func runC07(c *Ctx) {
 	}
 	methods := P.Methods("queue", "Queue")
 	ruleSliceLen(c, m)
+	// Push puts its argument in front of the head: whatever the path (room left, or grown — where the append that
+	// triggers the reallocation leaves the value at the BACK), an explicit store of the argument into a buffer cell
+	// is passed before the return
+	c.rule("R-PUSH-STORES", 0, "every path of Queue.Push to a return stores the pushed value into a cell of the buffer (the growing append alone leaves it at the back)")
+	if push := P.Func("queue", "Queue", "Push"); push != nil && len(push.Params) == 2 {
+		v := ssa.Value(push.Params[1])
+		isStore := func(in ssa.Instruction) bool {
+			st, ok := in.(*ssa.Store)
+			if !ok || st.Val != v {
+				return false
+			}
+			ia, ok := st.Addr.(*ssa.IndexAddr)
+			return ok && m.isLoad(ia.X, m.vsF)
+		}
+		reach, wit := reachesWithout(P, firstInstr(push), true, func(in ssa.Instruction) bool { _, r := in.(*ssa.Return); return r }, isStore)
+		c.sawFn(fnName(push))
+		c.judge(!reach, "R-PUSH-STORES", fnName(push)+":value stored", push.Pos(), "an element store of the argument on every path", "Push can return ("+wit+") without having stored its argument into a cell of the buffer: the new front element is whatever the cell held before")
+	}
 	isGrowth := func(in ssa.Instruction) (*ssa.Call, bool) {
 		// store to q.vs of a value derived from append(load q.vs, ...)
 		st, ok := in.(*ssa.Store)
